@@ -4,7 +4,7 @@ import numpy as np
 from common import *
 
 ID = "C09"
-THEOREM_FILES = ["Summer.Props.C09", "Summer.Props.C09Model", "Summer.Props.C01Source", "Summer.Props.C11Source", "Summer.Props.C05Source"]
+THEOREM_FILES = ["Summer.Props.C09", "Summer.Props.C09Model", "Summer.Props.C09EndToEnd", "Summer.Props.C01Source", "Summer.Props.C11Source", "Summer.Props.C05Source"]
 TASK = "task"
 RULE = ("programs with 2-8 parameters (every third one with Multiply / Overwrite adjustment chains on one flow across 2-3 stratifications) at every parameterisable site (flow rates, adjustments, initial distribution, splits, infectiousness "
         "adjustments, mixing matrices, time-function points, computed values, derived-output functions): (a) literal-built model vs "
